@@ -232,12 +232,92 @@ func translateC08(p *Pkg, o *Out) {
 	if n != 1 {
 		stored = nil
 	}
+	// role-based lookup (so that an extra local or an extra early-return in front does not move the translated
+	// expressions): the initialiser of the local a comparison's operand names, the top-level `if` whose condition is a
+	// comparison `<local> op <other>` with that operator; the positional rule below is only the fallback.
+	initOf := func(fd *ast.FuncDecl, id *ast.Ident) ast.Expr {
+		if fd == nil || id == nil {
+			return nil
+		}
+		obj := p.Info.Uses[id]
+		if obj == nil {
+			return nil
+		}
+		var out ast.Expr
+		ast.Inspect(fd.Body, func(n ast.Node) bool {
+			switch x := n.(type) {
+			case *ast.ValueSpec:
+				if len(x.Names) == 1 && len(x.Values) == 1 && p.Info.Defs[x.Names[0]] == obj {
+					out = x.Values[0]
+				}
+			case *ast.AssignStmt:
+				if x.Tok == token.DEFINE && len(x.Lhs) == 1 && len(x.Rhs) == 1 {
+					if l, ok := x.Lhs[0].(*ast.Ident); ok && p.Info.Defs[l] == obj {
+						out = x.Rhs[0]
+					}
+				}
+			}
+			return true
+		})
+		return out
+	}
+	// the unique top-level plain `if` whose condition is `<local ident> op <y>`; returns the condition and both sides
+	cmpIf := func(fd *ast.FuncDecl, op token.Token, rhsIdent bool) (ast.Expr, *ast.Ident, ast.Expr) {
+		if fd == nil || fd.Body == nil {
+			return nil, nil, nil
+		}
+		var c ast.Expr
+		var l *ast.Ident
+		var r ast.Expr
+		n := 0
+		for _, st := range fd.Body.List {
+			is, ok := st.(*ast.IfStmt)
+			if !ok || is.Init != nil {
+				continue
+			}
+			be, ok := is.Cond.(*ast.BinaryExpr)
+			if !ok || be.Op != op {
+				continue
+			}
+			li, ok := be.X.(*ast.Ident)
+			if !ok {
+				continue
+			}
+			if _, isIdent := be.Y.(*ast.Ident); isIdent != rhsIdent {
+				continue
+			}
+			c, l, r = is.Cond, li, be.Y
+			n++
+		}
+		if n != 1 {
+			return nil, nil, nil
+		}
+		return c, l, r
+	}
 	tr.Expr("reload_lastID", reload, stored, "SeqIDGen.reload: the value assigned to s.lastID")
-	// reload's locals: [0] is the tuple `counter, err := s.store.Incr()` (not single-name), so the first single-name one is rangeEnd
-	tr.Expr("reload_rangeEnd", reload, at(inits(reload), 0), "SeqIDGen.reload: the initialiser of its first single-name local (rangeEnd)")
-	tr.Expr("reload_overflow", reload, at(conds(reload), 1), "SeqIDGen.reload: the condition of its second top-level if (the overflow test)")
+	// reload: the overflow test is the top-level `if <local> < s.lastID`; rangeEnd is that local's initialiser
+	ovCond, ovLocal, _ := cmpIf(reload, token.LSS, false)
+	rlEnd := initOf(reload, ovLocal)
+	if ovCond == nil || rlEnd == nil {
+		// reload's locals: [0] is the tuple `counter, err := s.store.Incr()` (not single-name), so the first single-name one is rangeEnd
+		rlEnd, ovCond = at(inits(reload), 0), at(conds(reload), 1)
+	}
+	tr.Expr("reload_rangeEnd", reload, rlEnd, "SeqIDGen.reload: the initialiser of the local its overflow test compares with s.lastID (rangeEnd)")
+	tr.Expr("reload_overflow", reload, ovCond, "SeqIDGen.reload: the condition of its top-level `if <local> < s.lastID` (the overflow test)")
 	next := p.Func("SeqIDGen", "Next")
-	tr.Expr("Next_next", next, at(inits(next), 0), "SeqIDGen.Next: the initialiser of its first local (next)")
-	tr.Expr("Next_rangeEnd", next, at(inits(next), 1), "SeqIDGen.Next: the initialiser of its second local (rangEnd)")
-	tr.Expr("Next_inRange", next, at(conds(next), 0), "SeqIDGen.Next: the condition of its first top-level if (still inside the segment)")
+	// Next: the in-segment test is the top-level `if <local> <= <local>`; next and rangEnd are the two locals' initialisers
+	inCond, inL, inR := cmpIf(next, token.LEQ, true)
+	var nxInit, reInit ast.Expr
+	if inCond != nil {
+		nxInit = initOf(next, inL)
+		if ri, ok := inR.(*ast.Ident); ok {
+			reInit = initOf(next, ri)
+		}
+	}
+	if inCond == nil || nxInit == nil || reInit == nil {
+		nxInit, reInit, inCond = at(inits(next), 0), at(inits(next), 1), at(conds(next), 0)
+	}
+	tr.Expr("Next_next", next, nxInit, "SeqIDGen.Next: the initialiser of the left operand of its in-segment test (next)")
+	tr.Expr("Next_rangeEnd", next, reInit, "SeqIDGen.Next: the initialiser of the right operand of its in-segment test (rangEnd)")
+	tr.Expr("Next_inRange", next, inCond, "SeqIDGen.Next: the condition of its top-level `if <local> <= <local>` (still inside the segment)")
 }
